@@ -1043,6 +1043,15 @@ void VariableManager::assign_variable(const std::string &name,
         // 参照先変数に代入（再帰呼び出し、ただし参照先の名前は不明なので直接代入）
         if (typed_value.is_numeric()) {
             int64_t numeric_value = typed_value.as_numeric();
+            // 参照先の宣言型で範囲チェック（直接代入 x = v と同じ規則:
+            // unsigned への負の値は 0、範囲外は型範囲エラー）
+            if (!target_var->is_pointer && !target_var->is_array &&
+                !target_var->is_struct && !target_var->is_function_pointer &&
+                typed_value.numeric_type != TYPE_POINTER) {
+                numeric_value = interpreter_->range_checked_store_value(
+                    target_var->type, target_var->is_unsigned, numeric_value,
+                    name);
+            }
             target_var->value = numeric_value;
             target_var->is_assigned = true;
             if (target_var->type == TYPE_FLOAT ||
